@@ -28,6 +28,7 @@ type EventLog struct {
 	Keep  bool
 	Lines []string
 	cur   []string
+	notes []string
 	sum   [32]byte
 	N     int
 }
@@ -42,6 +43,18 @@ func (l *EventLog) Add(format string, a ...interface{}) {
 	l.mu.Unlock()
 }
 
+// Note records a line that is kept in the trace but not hashed (error texts produced
+// by git-bug can depend on Go map iteration order).
+func (l *EventLog) Note(format string, a ...interface{}) {
+	if l == nil || !l.Keep {
+		return
+	}
+	s := fmt.Sprintf(format, a...)
+	l.mu.Lock()
+	l.notes = append(l.notes, s)
+	l.mu.Unlock()
+}
+
 // EndStep folds the lines of the step into the running hash. Steps in which git-bug
 // runs goroutines of its own have their lines sorted first (their effects commute).
 func (l *EventLog) EndStep(label string, sorted bool) {
@@ -50,8 +63,25 @@ func (l *EventLog) EndStep(label string, sorted bool) {
 	}
 	l.mu.Lock()
 	defer l.mu.Unlock()
-	if sorted {
+	if !sorted {
+		// git-bug iterates over Go maps when it witnesses clocks (entity/dag read: "for _, opp
+		// := range oppMap"), so the ORDER of the witness calls of one read is random while their
+		// effect (an atomic maximum) is not: a step is hashed as the multiset of its calls.
 		sort.Strings(l.cur)
+	}
+	if sorted {
+		// git-bug ran goroutines of its own inside this step (cache build: the bug builder
+		// resolves authors through the identity sub-cache that is being built at the same
+		// time, so how often an identity is read from git depends on their race). Their
+		// effects commute: the step is hashed as the SET of its storage calls.
+		sort.Strings(l.cur)
+		out := l.cur[:0]
+		for i, s := range l.cur {
+			if i == 0 || s != l.cur[i-1] {
+				out = append(out, s)
+			}
+		}
+		l.cur = out
 	}
 	h := sha256.New()
 	h.Write(l.sum[:])
@@ -66,7 +96,11 @@ func (l *EventLog) EndStep(label string, sorted bool) {
 	if l.Keep {
 		l.Lines = append(l.Lines, "## "+label)
 		l.Lines = append(l.Lines, l.cur...)
+		for _, n := range l.notes {
+			l.Lines = append(l.Lines, "   # "+n)
+		}
 	}
+	l.notes = l.notes[:0]
 	l.cur = l.cur[:0]
 }
 
@@ -114,6 +148,11 @@ func (c *Control) MutCount() int { c.mu.Lock(); defer c.mu.Unlock(); return c.Mu
 // gate accounts for one call. crash=true means: this mutation is the crash point and
 // the caller must apply torn semantics (if any) and return ErrFrozen.
 func (c *Control) gate(kind string, mut bool, detail string) (crash bool, err error) {
+	return c.gate2(kind, mut, detail, detail)
+}
+
+// gate2: detail goes to the hashed event log, traceDetail to the mutation trace.
+func (c *Control) gate2(kind string, mut bool, detail, traceDetail string) (crash bool, err error) {
 	c.mu.Lock()
 	defer c.mu.Unlock()
 	if c.Frozen {
@@ -134,7 +173,7 @@ func (c *Control) gate(kind string, mut bool, detail string) (crash bool, err er
 	idx := c.Muts
 	c.Muts++
 	if c.KeepTrace {
-		c.Trace = append(c.Trace, kind+" "+detail)
+		c.Trace = append(c.Trace, kind+" "+traceDetail)
 	}
 	if c.ReadOnly {
 		c.RoBreach = append(c.RoBreach, kind+" "+detail)
@@ -512,7 +551,13 @@ type simFile struct {
 }
 
 func (f *simFile) Write(p []byte) (int, error) {
-	crash, err := f.c.gate("fs.Write", true, fmt.Sprintf("%s %d bytes", f.name, len(p)))
+	// the size of a gob-encoded cache file depends on the order in which the two sub-caches
+	// first used the encoder (type ids are assigned on first use): keep it out of the hashed log
+	logDetail := fmt.Sprintf("%s %d bytes", f.name, len(p))
+	if strings.HasPrefix(f.name, "cache/") {
+		logDetail = f.name
+	}
+	crash, err := f.c.gate2("fs.Write", true, logDetail, fmt.Sprintf("%s %d bytes", f.name, len(p)))
 	if err != nil {
 		if crash && len(p) > 0 {
 			// torn write: a prefix of the data reaches the file
